@@ -164,6 +164,35 @@ def touch(o):
         pass
 
 
+def observe_all(im):
+    """the read-outs in explicit user units of every object alive at the end of a program: {var: {observer: [numbers]}}"""
+    from pyplate import Container
+    import numpy
+    out = {}
+    for v, o in im.env.items():
+        d = {}
+        try:
+            if isinstance(o, Container):
+                for u in ('uL', 'mL', 'L'):
+                    d['get_volume ' + u] = [float(o.get_volume(u))]
+                for s in list(o.contents)[:2]:
+                    if not s.is_enzyme() and o.volume > 0:
+                        d['get_concentration M ' + s.name] = [float(o.get_concentration(s, 'M'))]
+            else:
+                for u in ('uL', 'mL', 'L'):
+                    d['get_volumes ' + u] = [float(x) for x in numpy.asarray(o.get_volumes(unit=u)).flatten()]
+                    d['row get_volumes ' + u] = [float(x) for x in numpy.asarray(o[1, :].get_volumes(unit=u)).flatten()]
+                    d['get_volume ' + u] = [float(o.get_volume(u))]
+                subs = sorted({s for w in o.wells.flatten() for s in w.contents if not s.is_enzyme()}, key=lambda s: s.name)[:2]
+                for s in subs:
+                    for u in ('umol', 'mmol', 'mol'):
+                        d[f'get_moles {u} {s.name}'] = [float(x) for x in numpy.asarray(o.get_moles(s, unit=u)).flatten()]
+        except Exception as e:  # noqa
+            d['error'] = [type(e).__name__]
+        out[str(v)] = d
+    return out
+
+
 class Impl:
     """runs a program on the real API; env maps variable -> object"""
 
